@@ -33,8 +33,8 @@ def async_body(crate, fnbody):
 
 def nested(crate, body):
     """closure bodies nested in body (direct and indirect)"""
-    pre = body.path + '::{closure#'
-    return [b for b in crate.bodies if b.path.startswith(pre)]
+    pres = [body.path + '::{closure#'] + [h + '::{closure#' for h in (body.d.get('inlined') or []) if isinstance(h, str) and h != 'async']
+    return [b for b in crate.bodies if b.path.startswith(tuple(pres))]
 
 
 def impl_bodies(crate, self_sub):
